@@ -363,10 +363,10 @@ _FWD_TEXT = ('PROVED (Verus, unit pwl_forward, every tree, every K >= 2, every l
              'unless the decision is the root, which stays with the feasible child as its only child; the returned node carries the decision\'s value. ')
 PROPS['C06'].update({
     'level': 'other',
-    'units': ['pwl_forward'],
+    'units': ['pwl_forward', 'pwl_elim'],
     'technique': 'Verus contract on the extracted forward_if_redundant (the single-branch replacement step: acts exactly on one-feasible / K-1-infeasible decisions, removes exactly the infeasible subtrees, splices the decision out) + bounded replay (bc prune[effective,idempotent], bc distill[effective,idempotent]) with an exact Fourier-Motzkin emptiness oracle for effectiveness and idempotence of the whole elimination',
-    'level_text': 'Mixed. ' + _FWD_TEXT + 'BOUNDED only (bc prune / distill, exact emptiness oracle): that after the whole infeasible_elimination no node below the root has an empty region, no decision below the root has a single branch, and a second run changes nothing (these depend on the LP answers and on the traversal that mutates the tree). ' + PROPS['C06']['level_text'],
-    'assumptions': ASSUME_COMMON + ASSUME_SLAB + ASSUME_ND + ASSUME_PWL + PROPS['C06']['assumptions'] + _FWD_ASSUME,
+    'level_text': 'Mixed. ' + _FWD_TEXT + 'IDEMPOTENCE PROVED in the form (unit pwl_elim): on a tree in which every node below the root already carries a verdict (no Indeterminate state - e.g. the result of a run without LP errors) infeasible_elimination leaves the arena exactly as it is: no LP call, no state write, no removal. ' 'BOUNDED only (bc prune / distill, exact emptiness oracle): that after the whole infeasible_elimination no node below the root has an empty region, no decision below the root has a single branch, and that the first run leaves no reachable node Indeterminate so that the second run is of the proved kind (these depend on the LP answers). ' + PROPS['C06']['level_text'],
+    'assumptions': ASSUME_COMMON + ASSUME_SLAB + ASSUME_ND + ASSUME_PWL + PROPS['C06']['assumptions'] + _FWD_ASSUME + _ELIM_ASSUME,
 })
 PROPS['C03']['units'] = ['pwl_feasible', 'pwl_forward', 'pwl_elim']
 PROPS['C03']['assumptions'] = PROPS['C03']['assumptions'] + _FWD_ASSUME
